@@ -37,7 +37,8 @@ from typing import Any
 from hv.gen import argnames, family
 from hv.gen.judge import scope_token, state_verdicts
 from hv.gen.programs import Env, World, run_block, take_probe
-from hv.loop import run_virtual
+from hv.clock import patched_time
+from hv.loop import VClock, run_virtual
 from hv.props.c02 import tg_verdict
 from hv.record import Recorder
 from hv.sched import Chooser, Sched
@@ -53,7 +54,7 @@ ASSUMPTIONS = [
     "streams never iterated and garbage-collection timing of abandoned generators are unspecified (the harness closes abandoned streams after taking its probes, before judging completion)",
     "a stream is consumed by one task from first item to end",
 ]
-MINIMUMS = {"monitor:items": 300, "monitor:body-state": 1000, "monitor:consumer-between": 500, "monitor:consumer-after": 300, "monitor:completion": 300, "creation_differs_from_consumption": 200, "consumed_while_cancelling": 60, "monitor:stream-owns-spawned": 100, "streams_created_in_the_context_of_a_left_scope": 12, "calls_of_callables_with_another_advertised_signature": 1, "streams_closed_early_with_a_task_that_never_ends_by_itself": 10}
+MINIMUMS = {"monitor:items": 300, "monitor:body-state": 1000, "monitor:consumer-between": 500, "monitor:consumer-after": 300, "monitor:completion": 300, "creation_differs_from_consumption": 200, "consumed_while_cancelling": 60, "monitor:stream-owns-spawned": 100, "streams_created_in_the_context_of_a_left_scope": 12, "calls_of_callables_with_another_advertised_signature": 1, "streams_closed_early_with_a_task_that_never_ends_by_itself": 10, "consumers_cancelled_inside_a_step_of_the_stream": 8}
 JOBS = {"quick": 4, "thorough": 8}
 LEVEL_TEXT = (
     "The product of generator shapes (0-5 items, end/raise, yields inside a nested scope, metric records, an inner stream) x 4 consumption places x full/break/aclose modes is "
@@ -535,7 +536,108 @@ def run_streams_of_a_left_scope(R: Recorder, case: dict[str, Any]) -> None:
     R.monitor("loop-clean", not loop.errors, where={**w0, "kind": "loop-exception-handler-called"}, detail=f"{loop.errors}", case=case)
 
 
+def run_consumer_cancelled_mid_step(R: Recorder, case: dict[str, Any], spawned_monitor: str = "stream-owns-spawned") -> None:
+    """the consumer is cancelled (from outside / by an asyncio.timeout of its own) while it is suspended INSIDE a step of the stream: the
+    source is waiting for its next element, a task it spawned is running. The cancellation reaches the source (its cleanup runs, in the
+    creation context), the stream's scope is left - its task cancelled and finished - and the creating scope completes."""
+    from haiway import ctx
+
+    how, spawns, turns = case["how"], case["spawns"], case["turns"]
+    log: dict[str, Any] = {"received": [], "events": []}
+    R1 = family.R1
+
+    async def worker() -> None:
+        try:
+            await asyncio.get_running_loop().create_future()
+        except asyncio.CancelledError:
+            log["events"].append("worker-cancelled")
+            raise
+        finally:
+            log["worker_finished"] = True
+
+    async def source() -> Any:
+        if spawns:
+            log["worker"] = ctx.spawn(worker)
+        try:
+            yield "first"
+            await asyncio.get_running_loop().create_future()  # waits for an element that never arrives
+            yield "never"
+        except asyncio.CancelledError:
+            log["events"].append("source-cancelled")
+            log["cleanup_state"] = ctx.state(R1).v
+            raise
+        finally:
+            log["source_finalised"] = True
+
+    def done(metrics: Any) -> None:
+        log["events"].append("create-completed")
+
+    async def main(loop: Any) -> None:
+        async with ctx.scope("create", family.make("R1", 1), completion=done):
+            stream = ctx.stream(source)
+
+        async def consumer() -> None:
+            async with ctx.scope("consume", family.make("R1", 11)):
+                try:
+                    if how == "timeout":
+                        async with asyncio.timeout(0.5):
+                            async for item in stream:
+                                log["received"].append(item)
+                    else:
+                        async for item in stream:
+                            log["received"].append(item)
+                finally:
+                    log["consumer_state_after"] = ctx.state(R1).v
+
+        task = loop.create_task(consumer())
+        if how == "cancel":
+            for _ in range(turns):
+                await asyncio.sleep(0)
+            log["cancel_accepted"] = task.cancel()
+        try:
+            await task
+            log["consumer"] = "returned"
+        except asyncio.CancelledError:
+            log["consumer"] = "cancelled"
+        except BaseException as exc:  # noqa: BLE001
+            log["consumer"] = repr(exc)
+        for _ in range(8):
+            await asyncio.sleep(0)
+        log["worker_done"] = (not spawns) or log["worker"].done()
+        log["settled"] = True
+        if spawns and not log["worker"].done():
+            log["worker"].cancel()  # nobody else will: do not leave it to the loop shutdown
+
+    with patched_time(clock := VClock()):
+        status, value, loop = run_virtual(main, clock=clock, max_iterations=5000)
+    R.case(case, nontrivial=True)
+    R.count("consumers_cancelled_inside_a_step_of_the_stream")
+    w0 = {"place": "sibling", "mode": "cancelled-mid-step", "how": how}
+    if status != "ok" or not log.get("settled"):
+        R.monitor("items", False, where={**w0, "kind": "run-failed"}, detail=f"run ended {status} {value!r}; {log}", case=case)
+        return
+    want_end = "cancelled" if how == "cancel" else "TimeoutError()"
+    R.monitor("items", log["received"] == ["first"] and log["consumer"] == want_end, where={**w0, "kind": "terminal-outcome-differs"}, detail=f"consumer received {log['received']} and ended {log['consumer']!r} (expected ['first'] then {want_end}); {log}", case=case)
+    R.monitor("body-state", log.get("source_finalised") is True and "source-cancelled" in log["events"] and log.get("cleanup_state") == 1, where={**w0, "kind": "other"},
+              detail=f"the source waiting for its next element was not told about the cancellation of the step (or its cleanup ran elsewhere): events {log['events']}, cleanup saw R1 uid {log.get('cleanup_state')} (creation scope: 1)", case=case)
+    R.monitor("consumer-after", log.get("consumer_state_after") == 11, where={**w0, "kind": "other", "probe": "after-cancel"}, detail=f"consumer's state after the cancelled step: R1 uid {log.get('consumer_state_after')} (its own scope supplies 11)", case=case)
+    R.monitor("completion", "create-completed" in log["events"], where={**w0, "kind": "completion-never-fired", "scope": "create"}, detail=f"the stream was left by the cancellation, yet its creating scope has not completed: {log['events']}", case=case)
+    if spawns:
+        R.monitor(spawned_monitor, log["worker_done"] is True and "worker-cancelled" in log["events"], where={**w0, "kind": "stream-ended-before-its-task" if spawned_monitor == "stream-owns-spawned" else "task-outlived-the-stream-scope"},
+                  detail=f"the task the source spawned is {'done' if log['worker_done'] else 'STILL RUNNING'} after the consumer's cancelled step ended; events {log['events']}", case=case)
+
+
+def mid_step_cases():  # noqa: ANN201
+    for how in ("cancel", "timeout"):
+        for spawns in (False, True):
+            for turns in ((3, 4, 6) if how == "cancel" else (0,)):
+                yield {"mid_step": True, "how": how, "spawns": spawns, "turns": turns}
+
+
 def run(R: Recorder, tier: str, seed: int, shard: int, nshards: int) -> None:
+    if shard == 1 % nshards:
+        for case in mid_step_cases():
+            run_consumer_cancelled_mid_step(R, case)
     if shard == 0:
         argnames.check_ctx_entry_points(R, "items", "stream")
         argnames.check_injecting_ctx(R, "items", "stream")
@@ -553,6 +655,9 @@ def run(R: Recorder, tier: str, seed: int, shard: int, nshards: int) -> None:
 
 
 def replay(R: Recorder, case: dict[str, Any]) -> None:
+    if case.get("mid_step"):
+        run_consumer_cancelled_mid_step(R, case)
+        return
     if "injecting" in case:
         argnames.check_injecting_ctx(R, "items", "stream")
         return
